@@ -70,6 +70,17 @@ def run(e: Engine, rep: Report):
              'c11.TEXT_RAISES) leaves Envelope.parse: the header-less and '
              'the 8-bit input are parsed like any other')
     e8(e, rep)
+    rep.rule('E9', 'the policy the module parses and generates with keeps '
+             'the refolding threshold of the quantifier (lines of up to 78 '
+             'bytes are left as they are): if it is a clone(...), the clone '
+             'neither lowers max_line_length below 78 nor sets '
+             'refold_source to "all"')
+    e9(e, rep)
+    rep.rule('E10', 'a copy behaves like the original: nothing in the '
+             'module branches on the identity of a policy object '
+             '(`x.policy != SMTP`; policies compare by identity, and '
+             'deepcopy / pickle make a new one)')
+    e10(e, rep)
     rep.floor('E2', 4, 'body provenance obligations')
 
 
@@ -727,3 +738,96 @@ def e8(e: Engine, rep: Report):
                 'Envelope.parse fails on a message it used to accept'
                 % n.text(50), loc=n.loc(),
                 witness=dataflow.render_path(pth, 10) if pth else None)
+
+
+# ---------------------------------------------------------------------- E9
+def e9(e: Engine, rep: Report):
+    m = e.p.modules.get('slimta.envelope')
+    CLS = ('BytesParser', 'BytesGenerator', 'Parser', 'Generator',
+           'BytesFeedParser')
+    n = 0
+    for c in ast.walk(m.tree):
+        if not (isinstance(c, ast.Call) and
+                ast.unparse(c.func).rpartition('.')[2] in CLS):
+            continue
+        pol = [k.value for k in c.keywords if k.arg == 'policy']
+        if not pol:
+            continue
+        x, seen = pol[0], set()
+        while isinstance(x, ast.Name) and x.id in m.globals and \
+                x.id not in seen:
+            seen.add(x.id)
+            x = m.globals[x.id]
+        n += 1
+        rep.evaluations += 1
+        bad = None
+        if isinstance(x, ast.Call) and isinstance(x.func, ast.Attribute) \
+                and x.func.attr == 'clone':
+            for k in x.keywords:
+                v = k.value
+                if k.arg == 'max_line_length' and \
+                        isinstance(v, ast.Constant) and \
+                        isinstance(v.value, int) and 0 < v.value < 78:
+                    bad = 'max_line_length=%d' % v.value
+                if k.arg == 'refold_source' and \
+                        isinstance(v, ast.Constant) and v.value == 'all':
+                    bad = "refold_source='all'"
+        rep.check(bad is None, 'E9', 'slimta.envelope',
+                  'policy of `%s`' % ' '.join(ast.unparse(c).split())[:40],
+                  'the policy is `%s`: with %s a well-formed header line '
+                  'of 77 or 78 bytes counts as over-long, so flatten() '
+                  're-folds (or RFC 2047-encodes) a field that was parsed '
+                  'as it stood - the value that comes out is not the value '
+                  'that went in' % (' '.join(ast.unparse(x).split())[:60],
+                                    bad), loc='%s:%d' % (m.relpath,
+                                                         c.lineno),
+                  reason='stock threshold')
+    if n < 2:
+        rep.error('anchor vanished: policy= of parser / generator (%d < 2)'
+                  % n)
+
+
+# --------------------------------------------------------------------- E10
+def e10(e: Engine, rep: Report):
+    m = e.p.modules.get('slimta.envelope')
+    pol_names = set()
+    for st in m.tree.body:
+        if isinstance(st, ast.ImportFrom) and st.module == 'email.policy':
+            pol_names |= {a.asname or a.name for a in st.names}
+        elif isinstance(st, ast.Assign) and isinstance(
+                st.value, (ast.Name, ast.Attribute, ast.Call)) and any(
+                isinstance(y, ast.Name) and y.id in pol_names
+                for y in ast.walk(st.value)):
+            pol_names |= {t.id for t in st.targets
+                          if isinstance(t, ast.Name)}
+
+    def is_policy(x):
+        return (isinstance(x, ast.Attribute) and x.attr == 'policy') or (
+            isinstance(x, ast.Name) and x.id in pol_names) or (
+            isinstance(x, ast.Attribute) and
+            ast.unparse(x).startswith('email.policy.'))
+    n = 0
+    for f in e.p.functions.values():
+        if f.module.name != 'slimta.envelope':
+            continue
+        n += 1
+        for c in walk_own(f.node):
+            if isinstance(c, ast.Compare) and any(
+                    is_policy(x) for x in [c.left] + list(c.comparators)):
+                rep.evaluations += 1
+                rep.functions.add(f.qname)
+                rep.bad('E10', f.qname, '`%s`' % ' '.join(
+                    ast.unparse(c).split())[:50],
+                    'the module branches on `%s`: policy objects compare '
+                    'by identity, and the one that hangs off a deep copy or '
+                    'an unpickled envelope is a new object - the copy takes '
+                    'the other branch and flattens to different header '
+                    'values than the envelope it was copied from'
+                    % ' '.join(ast.unparse(c).split())[:50], loc=f.loc(c))
+    rep.evaluations += 1
+    if n < 5:
+        rep.error('anchor vanished: functions of slimta.envelope (%d < 5)'
+                  % n)
+    else:
+        rep.ok('E10', 'slimta.envelope', 'no comparison of policy objects',
+               reason='%d functions scanned' % n, nontrivial=False)
